@@ -228,7 +228,8 @@ def lastD (l : List Tree) (d : Tree) : Tree := l.getLast?.getD d
 def gUses : G :=
   .map (fun v =>
       let u := v.nth 0; let ids := (v.nth 1).kids
-      mk "uses" "uses" ⟨u.rng.s, (lastD ids u).rng.e⟩ [] (ids.map (fun i => "uses=" ++ i.ident)))
+      mk "uses" "uses" ⟨u.rng.s, (lastD ids u).rng.e⟩ []
+        (ids.map (fun i => "uses=" ++ i.ident) ++ ids.map (fun i => "urng=" ++ encRng i.rng)))
     (seqL [.tok Kind.Uses, .ref nIdentList])
 
 def gTypeDecl : G :=
